@@ -126,6 +126,13 @@ theorem failure_closes_transport {σ : Type} (fl : Flavour) (P : Pats) (cfg : Cf
     simp only at h
     exact absurd h hne
 
+/-- with auth bypass (or a transport without in-channel authentication) `Open` writes nothing —
+no credential leaves the client whatever the device shows — succeeds, leaves the transport open and
+leaves every byte the device sent in the queue for the first operation -/
+theorem no_auth_is_inert {σ : Type} (d : σ) (q : List Bytes) :
+    (openNoAuth d q).trace = [] ∧ (openNoAuth d q).outcome = .ok ∧
+    (openNoAuth d q).closed = false ∧ (openNoAuth d q).queue = q := ⟨rfl, rfl, rfl, rfl⟩
+
 /-! ## what login read stays available -/
 
 /-- On success the bytes the login loop consumed since the last credential (they end in the
